@@ -50,10 +50,30 @@ func refFaults(lines []refLine) []refFault {
 			// second singleton child
 			if ti == tj && lines[i].parent == lines[j].parent && lines[i].parent >= 0 {
 				switch ti {
-				case tTitle, tVersion, tDescription, tProtocol, tBaseURL:
+				case tTitle, tVersion, tDescription, tProtocol, tBaseURL, tBodyAny, tHeaders:
 					ff = append(ff, refFault{"second singleton child", j, i})
 				}
 			}
+			// a blank Title and an ordinary Title are two Titles as well
+			if (ti == tTitle || ti == tTitleBlank) && (tj == tTitle || tj == tTitleBlank) && ti != tj && lines[i].parent == lines[j].parent && lines[i].parent >= 0 {
+				ff = append(ff, refFault{"second singleton child", j, i})
+			}
+			if ti == tTitleBlank && tj == tTitleBlank && lines[i].parent == lines[j].parent && lines[i].parent >= 0 {
+				ff = append(ff, refFault{"second singleton child", j, i})
+			}
+		}
+		// a required parameter is missing
+		switch lines[i].t {
+		case tEnumNoName, tServerNoName, tTypeNoName, tTagNoName, tPasteNoName, tMethodNoName:
+			ff = append(ff, refFault{"missing required parameter", i, i})
+		case tTagsNoName:
+			if p := lines[i].parent; p >= 0 && refIsMethod(lines[p].t) {
+				ff = append(ff, refFault{"missing required parameter", i, i})
+			}
+		}
+		// a response without any body
+		if lines[i].t == tRespBare && refChild(lines, i, tBodyAny) < 0 && lines[i].parent >= 0 {
+			ff = append(ff, refFault{"response without body", i, i})
 		}
 		// Tags naming an undeclared tag
 		if lines[i].t == tTags {
@@ -89,7 +109,19 @@ func refFaults(lines []refLine) []refFault {
 // located at (the keyword of) one of the directives of the document.
 func VerifH_StaticChecks() {
 	k := verifrt.Bound("K")
-	text, lines := verifDocLines(verifMenuStructure, k, true)
+	menu := verifMenuStructure
+	if verifrt.Bound("MENU") == 1 {
+		// singleton children and responses: blank titles, bare responses with Body children, headers
+		menu = []int{tInfo, tTitle, tTitleBlank, tVersion, tGetPath, tResp200, tRespBare, tBodyAny, tHeaders}
+	}
+	if verifrt.Bound("MENU") == 2 {
+		// directives written without their required name
+		menu = []int{tEnumNoName, tServerNoName, tTypeNoName, tTagNoName, tPasteNoName, tTagsNoName, tMethodNoName, tURL, tGetPath, tProtocol, tResp200}
+	}
+	text, lines := verifDocLines(menu, k, true)
+	if !verifBareResponsesWellFormed(lines) {
+		verifrt.Stop()
+	}
 	verifrt.Note("doc", text)
 	_, je := verifRun(text)
 	if !refResolveLines(lines) {
@@ -134,7 +166,9 @@ func VerifH_Banned() {
 	bannedT := verifMenuBanned[verifrt.Choice("banned", len(verifMenuBanned))]
 	banned := refKind(bannedT)
 	verifrt.Note("banned", banned.String())
+	verifFSInit()
 	verifFiles = map[string][]byte{verifDir + "/inc.jst": []byte("ENUM @c\n")}
+	verifFSWrite(verifFiles)
 	first := -1
 	for i, ln := range lines {
 		if refKind(ln.t) == banned {
@@ -214,7 +248,12 @@ func refMentionsFresh(s string) bool {
 // deleting an unreferenced declaration removes exactly its entry.
 func VerifH_Locality() {
 	k := verifrt.Bound("K")
-	_, lines := verifDocLines(verifMenuStructure, k, true)
+	menu := verifMenuStructure
+	if verifrt.Bound("MENU") == 1 {
+		// schema-bearing documents (real schema library)
+		menu = []int{tURLParam, tGet, tPathDir, tRespRef, tRequestObj, tTypeObj, tEnum, tTypeAllOf, tGetPath}
+	}
+	_, lines := verifDocLines(menu, k, true)
 	if !refResolveLines(lines) {
 		verifrt.Stop()
 	}
